@@ -86,6 +86,8 @@ class Env:
         self.ran = []
         self.seen = []
         self.nraised = 0
+        self.hx_unit = {}
+        self.hx_total = 0
         self.unit_n = {}  # per-unit count of exceptions raised (markers are MARK-<unit>-<k>, k counted per unit)
         self.epoch = 0
         self.events = []  # ("handler", marker) and ("outcome", name) in one sequence
@@ -317,7 +319,15 @@ class SynthBase(testtools.TestCase):
             self.addOnException(self._on_exception)
 
     def _on_exception(self, exc_info):
-        self.env.events.append(("handler", str(exc_info[1])))
+        env = self.env
+        env.events.append(("handler", str(exc_info[1])))
+        # "add some diagnostic state to the test details dict": a detail per exception, named hx, hx-1, ...
+        unit = "force" if "Forced Test Failure" in str(exc_info[1]) else env.current_unit
+        if str(exc_info[1]).startswith("MARK-fxclean:") or str(exc_info[1]).startswith("MARK-fxgather:"):
+            unit = str(exc_info[1])[5:].rsplit("-", 1)[0]
+        env.hx_unit[unit] = env.hx_unit.get(unit, 0) + 1
+        self.addDetail(name_str("hx", env.hx_total), fixed_content("hx:%s:%d" % (unit, env.hx_unit[unit])))
+        env.hx_total += 1
 
     def defaultTestResult(self):
         return self.env.default_result
